@@ -13,7 +13,8 @@ use dasp_ring_buffer as ring_buffer;
 use dasp_signal::Signal;
 use petgraph::graph::{Graph, NodeIndex};
 use petgraph::stable_graph::StableGraph;
-use simcore::{check, Observer, Op, OpSpec, Rng, Scenario, Source, Violation};
+use simcore::{check, check_eq, Observer, Op, OpSpec, Rng, Scenario, Source, Violation};
+use std::cell::Cell;
 use std::collections::VecDeque;
 use std::marker::PhantomData;
 
@@ -103,6 +104,43 @@ impl Node for SnapDelay {
     }
 }
 
+// Invocation accounting: every node handed to a wrapper is first put inside `Counting`, which
+// bumps a per-tag thread-local counter (const-initialised cells: no heap) and forwards.  A wrapper
+// that does not forward `process` to the node it holds shows up as a count that lags the model.
+const COUNT_SLOTS: usize = 4096;
+thread_local! {
+    static INVOKED: [Cell<u32>; COUNT_SLOTS] = const { [const { Cell::new(0) }; COUNT_SLOTS] };
+    static CUR_TAG: Cell<u32> = const { Cell::new(0) };
+}
+pub fn reset_invocations() {
+    INVOKED.with(|v| v.iter().for_each(|c| c.set(0)));
+}
+pub fn invocations(tag: u32) -> Option<u32> {
+    if (tag as usize) < COUNT_SLOTS {
+        Some(INVOKED.with(|v| v[tag as usize].get()))
+    } else {
+        None
+    }
+}
+pub struct Counting<T> {
+    inner: T,
+    tag: u32,
+}
+impl<T> Counting<T> {
+    fn new(inner: T) -> Self {
+        Counting { inner, tag: CUR_TAG.with(|c| c.get()) }
+    }
+}
+impl<T: Node> Node for Counting<T> {
+    fn process(&mut self, inputs: &[Input], output: &mut [Buffer]) {
+        // tag 0: nodes inside a nested graph (not accounted)
+        if self.tag != 0 && (self.tag as usize) < COUNT_SLOTS {
+            INVOKED.with(|v| v[self.tag as usize].set(v[self.tag as usize].get() + 1));
+        }
+        self.inner.process(inputs, output)
+    }
+}
+
 pub trait Wrap: Node + Sized + 'static {
     const NAME: &'static str;
     fn wrap<T: Node + Send + 'static>(t: T) -> Self;
@@ -145,13 +183,13 @@ impl Wrap for BoxedNode {
     }
     const NAME: &'static str = "BoxedNode";
     fn wrap<T: Node + Send + 'static>(t: T) -> Self {
-        BoxedNode::new(t)
+        BoxedNode::new(Counting::new(t))
     }
     fn wrap_local<T: Node + 'static>(t: T) -> Option<Self> {
-        Some(BoxedNode::new(t))
+        Some(BoxedNode::new(Counting::new(t)))
     }
     fn wrap_graph(gn: GraphNode<Graph<NodeData<Self>, ()>, Self>) -> Self {
-        BoxedNode::new(gn)
+        BoxedNode::new(Counting::new(gn))
     }
 }
 impl Wrap for BoxedNodeSend {
@@ -162,25 +200,25 @@ impl Wrap for BoxedNodeSend {
     }
     const NAME: &'static str = "BoxedNodeSend";
     fn wrap<T: Node + Send + 'static>(t: T) -> Self {
-        BoxedNodeSend::new(t)
+        BoxedNodeSend::new(Counting::new(t))
     }
     fn wrap_local<T: Node + 'static>(_: T) -> Option<Self> {
         None
     }
     fn wrap_graph(gn: GraphNode<Graph<NodeData<Self>, ()>, Self>) -> Self {
-        BoxedNodeSend::new(gn)
+        BoxedNodeSend::new(Counting::new(gn))
     }
 }
 impl Wrap for Box<dyn Node> {
     const NAME: &'static str = "Box<dyn Node>";
     fn wrap<T: Node + Send + 'static>(t: T) -> Self {
-        Box::new(t)
+        Box::new(Counting::new(t))
     }
     fn wrap_local<T: Node + 'static>(t: T) -> Option<Self> {
-        Some(Box::new(t))
+        Some(Box::new(Counting::new(t)))
     }
     fn wrap_graph(gn: GraphNode<Graph<NodeData<Self>, ()>, Self>) -> Self {
-        Box::new(gn)
+        Box::new(Counting::new(gn))
     }
 }
 
@@ -375,6 +413,7 @@ fn eval_node(n: &mut NodeM, inputs: &[Vec<Buf>], obs: &mut Observer) {
 /// allocation scenario switches it off)
 pub fn make_node<W: Wrap>(m: &NodeM, param: i64, snap_delay: bool) -> Option<W> {
     let tag = m.tag;
+    CUR_TAG.with(|c| c.set(tag));
     Some(match m.kind {
         K_SRC => W::wrap(SrcNode { tag, call: 0 }),
         K_SRC_FNPTR => W::wrap(sevens as fn(&[Input], &mut [Buffer])),
@@ -488,6 +527,7 @@ pub fn make_node<W: Wrap>(m: &NodeM, param: i64, snap_delay: bool) -> Option<W> 
         K_GRAPHNODE => {
             let k = m.inner_in.len();
             let mut g: Graph<NodeData<W>, ()> = Graph::with_capacity(k + 1, k);
+            CUR_TAG.with(|c| c.set(0));
             let out = g.add_node(NodeData::new(W::wrap(Sum), vec![Buffer::SILENT; m.inner_sum_bufs]));
             let mut ins = Vec::new();
             for j in 0..k {
@@ -496,6 +536,7 @@ pub fn make_node<W: Wrap>(m: &NodeM, param: i64, snap_delay: bool) -> Option<W> 
                 ins.push(n);
             }
             let _ = param;
+            CUR_TAG.with(|c| c.set(tag));
             W::wrap_graph(GraphNode {
                 processor: Processor::with_capacity(k + 1),
                 graph: g,
@@ -603,6 +644,7 @@ fn drive<W: Wrap, G: GraphLike<W>>(src: &mut Source, obs: &mut Observer) -> Resu
     let mut g: G = G::new_with_capacity(8, 16);
     let mut m: Mirror<NodeM> = Mirror::new(G::STABLE);
     let mut p: Processor<G> = G::make_processor(8);
+    reset_invocations();
     let mut next_tag = 1u32;
     let mut calls = 0u32;
     let mut dirty = false;
@@ -744,6 +786,24 @@ fn drive<W: Wrap, G: GraphLike<W>>(src: &mut Source, obs: &mut Observer) -> Resu
                     // f32 sums would stop being exact: outside the exact-arithmetic domain of this run
                     obs.probe(P_MAG_CAP);
                     return Ok(());
+                }
+                // every node was invoked exactly as often as the reference evaluated it (a wrapper
+                // that swallows a call shows here even when the node has no buffers to compare)
+                for &n in &live {
+                    let model = m.slots[n].as_ref().unwrap();
+                    if let Some(real) = invocations(model.tag) {
+                        check_eq!(
+                            obs,
+                            real,
+                            model.calls,
+                            "nodes.invocations",
+                            "{} node tag {} behind {} ({} buffers): times its process() ran",
+                            KIND_NAMES[model.kind as usize],
+                            model.tag,
+                            W::NAME,
+                            model.bufs.len()
+                        );
+                    }
                 }
                 // every node's buffers (processed or not) against the reference
                 for &n in &live {
